@@ -247,7 +247,12 @@ type env struct {
 	maxIn    atomic.Int32
 	realSrv  bool
 	routed   bool // two handlers wrapped with one and the same LogMiddleware; odd ids go to the second
+	// fallback: a middleware ahead of the LogMiddleware answers 404 with a body of its own when the wrapped
+	// handler has written nothing (a "not found" page, a late header): it can only do so if nothing was committed
+	fallback bool
 }
+
+func fallbackBody(id int) string { return "fallback-" + strconv.Itoa(id) }
 
 func (e *env) problem(format string, a ...any) {
 	e.problems.mu.Lock()
@@ -550,6 +555,12 @@ func verify(e *env, ids []int, resps []response) (what string, checks int) {
 		if rs.route != wantRoute || rs.late != "" {
 			return fmt.Sprintf("the client of request %d received X-Route %q (want %q: two handlers are wrapped with one LogMiddleware, odd ids go to the second) and X-Late %q (want none: set after an empty Write had committed the headers)", rs.id, rs.route, wantRoute, rs.late), checks
 		}
+		if e.fallback && idKind(rs.id) == 0 {
+			if rs.code != http.StatusNotFound || rs.body != fallbackBody(rs.id) || rs.hdr != strconv.Itoa(rs.id) {
+				return fmt.Sprintf("the client of request %d received code %d body %q header %q; its invocation wrote nothing and the middleware in front of the LogMiddleware then answered 404 %q", rs.id, rs.code, rs.body, rs.hdr, fallbackBody(rs.id)), checks
+			}
+			continue
+		}
 		if rs.code != expectedCode(rs.id) || rs.body != wantBody || rs.hdr != strconv.Itoa(rs.id) {
 			return fmt.Sprintf("the client of request %d received code %d body %q header %q, its invocation wrote %d %q", rs.id, rs.code, rs.body, rs.hdr, expectedCode(rs.id), expectedBody(rs.id)), checks
 		}
@@ -575,6 +586,18 @@ func newEnvMode(retain bool, real bool, mode int) (*env, http.Handler) {
 		e.quietMW = true
 		mw := httputil.NewLogMiddleware(slog.New(&recHandler{st: e.st, retain: retain, yield: y, min: slog.LevelInfo}), slog.LevelDebug)
 		return e, httputil.Wrap(http.HandlerFunc(e.inner), mw)
+	}
+	if mode == 3 {
+		e.fallback = true
+		mw := httputil.NewLogMiddleware(slog.New(&recHandler{st: e.st, retain: retain, yield: y}), slog.LevelInfo)
+		h := httputil.Wrap(http.HandlerFunc(e.inner), mw)
+		return e, http.HandlerFunc(func(w http.ResponseWriter, r *http.Request) {
+			h.ServeHTTP(w, r)
+			if id, _ := strconv.Atoi(r.Header.Get("X-Id")); idKind(id) == 0 {
+				w.WriteHeader(http.StatusNotFound)
+				_, _ = io.WriteString(w, fallbackBody(id))
+			}
+		})
 	}
 	mw := httputil.NewLogMiddleware(slog.New(&recHandler{st: e.st, retain: retain, yield: y}), slog.LevelInfo)
 	// one middleware instance wraps two handlers (two routes of a mux): each wrapped handler keeps its own next
@@ -665,7 +688,7 @@ func TestIsolation(t *testing.T) {
 	nextID := 0
 	for round := 0; round < rounds && !r.TooMany(); round++ {
 		retain := round%2 == 1
-		e, h := newEnvMode(retain, false, []int{0, 0, 1, 2, 0, 1}[round%6])
+		e, h := newEnvMode(retain, false, []int{0, 3, 1, 2, 0, 1, 3}[round%7])
 		rng := r.Rand(uint64(round))
 		// several batches on the same middleware: pooled objects are reused across batches
 		var all []int
@@ -751,7 +774,7 @@ func TestServer(t *testing.T) {
 	perClient := r.Pick(150, 600)
 	var reqs, trailers atomic.Int64
 	for round := 0; round < rounds && !r.TooMany(); round++ {
-		e, h := newEnvMode(round%2 == 1, true, []int{0, 1, 2}[round%3])
+		e, h := newEnvMode(round%2 == 1, true, []int{0, 1, 2, 3}[round%4])
 		if round%2 == 0 {
 			// a middleware ahead of the LogMiddleware hands down a writer that has the three basic methods
 			// and Unwrap, nothing else: Flush and Hijack have to find the real writer through it
